@@ -1,4 +1,59 @@
 #!/usr/bin/env python3
-import sys
-if '--setup' in sys.argv:
-    sys.exit(0)
+"""Per-property driver: regenerate the encoding from /repo, discharge the solver queries, lift/replay
+counterexamples against the real build, write evidence/<id>.json.
+
+usage: run_check.py C07 [--tier quick|thorough] [--replay PATH]
+       run_check.py --setup
+exit 0: property held on everything explored (KNOWN-FINDING lines possible); exit 1: VIOLATION line printed;
+exit 2: tool error (never a verdict)."""
+import json, os, sys, time, argparse, shutil, subprocess
+
+ROOT = os.path.dirname(os.path.abspath(__file__))
+sys.path.insert(0, ROOT)
+from vlib import core, plan, checks  # noqa: E402
+
+
+def setup():
+    need = ['clang++-14', 'cbmc', 'g++', 'gcc', 'python3']
+    missing = [t for t in need if shutil.which(t) is None]
+    if missing:
+        print('missing tools: ' + ' '.join(missing))
+        return 2
+    v = subprocess.run(['cbmc', '--version'], capture_output=True, text=True).stdout.strip()
+    print('tools ok (cbmc %s)' % v)
+    os.makedirs(os.path.join(ROOT, 'build'), exist_ok=True)
+    os.makedirs(os.path.join(ROOT, 'evidence'), exist_ok=True)
+    os.makedirs(os.path.join(ROOT, 'replays'), exist_ok=True)
+    return 0
+
+
+def main():
+    ap = argparse.ArgumentParser()
+    ap.add_argument('prop', nargs='?')
+    ap.add_argument('--setup', action='store_true')
+    ap.add_argument('--tier', default=os.environ.get('VERIF_TIER', 'quick'), choices=['quick', 'thorough'])
+    ap.add_argument('--replay')
+    ap.add_argument('--only', help='restrict to containers (comma separated), for debugging')
+    a = ap.parse_args()
+    if a.setup:
+        return setup()
+    if not a.prop:
+        ap.error('property id required')
+    setup()
+    seed = int(os.environ.get('VERIF_SEED', '0') or 0)
+    pid = a.prop.upper()
+    num = int(pid[1:])
+    if a.replay:
+        return checks.replay_file(pid, a.replay)
+    t0 = time.time()
+    try:
+        rc = checks.run_property(num, a.tier, seed, only=a.only.split(',') if a.only else None)
+    except core.ToolError as e:
+        print('TOOL-ERROR property=%s %s' % (pid, str(e)[:2000]))
+        return 2
+    sys.stderr.write('%s %s: exit %d in %.0fs\n' % (pid, a.tier, rc, time.time() - t0))
+    return rc
+
+
+if __name__ == '__main__':
+    sys.exit(main())
